@@ -2,83 +2,12 @@
 //! programs are run on both back ends and compared, sample by sample and bit by
 //! bit, with the reference interpreter.
 
+use super::progcase::{Case, gen_case, input_fn, norm, report};
 use super::{drive, replay_one};
-use crate::gens::core::{Feat, Program, generate};
 use crate::refsem;
 use crate::run::{Backend, RunError, run_program};
-use crate::util::{Args, Out, Rng, bits_eq, f64s_to_json, splitmix};
-use serde::{Deserialize, Serialize};
+use crate::util::{Args, Out, bits_eq, f64s_to_json};
 use serde_json::{Value, json};
-
-#[derive(Clone, Debug, Serialize, Deserialize)]
-pub struct Case {
-    pub src: String,
-    pub n: usize,
-    #[serde(default)]
-    pub input_seed: u64,
-    #[serde(default = "yes")]
-    pub finite_inputs: bool,
-    /// generated programs carry their G-AST (the reference interpreter runs on it)
-    #[serde(default)]
-    pub prog: Option<Program>,
-    /// hand-written witnesses carry the expected output stream instead
-    /// (flattened [sample][channel], as strings so that NaN / -0.0 / inf can be written)
-    #[serde(default)]
-    pub expect: Option<Vec<String>>,
-}
-fn yes() -> bool {
-    true
-}
-
-const PALETTE: [f64; 16] =
-    [0.0, 1.0, -1.0, 0.5, -0.5, 2.0, 3.0, 0.25, 10.0, -3.5, 0.1, 7.0, 100.0, -0.75, 1e-3, 4.0];
-const NASTY: [f64; 8] = [f64::NAN, f64::INFINITY, f64::NEG_INFINITY, -0.0, 1e308, 5e-324, -1e308, 1e16];
-
-pub fn input_fn(seed: u64, finite: bool) -> impl Fn(usize, usize) -> f64 {
-    move |t: usize, c: usize| {
-        let mut s = seed ^ ((t as u64) << 8) ^ (c as u64).wrapping_mul(0x9E37_79B9);
-        let r = splitmix(&mut s);
-        if !finite && r % 7 == 0 {
-            return NASTY[(r >> 8) as usize % NASTY.len()];
-        }
-        match r % 4 {
-            0 => PALETTE[(r >> 8) as usize % PALETTE.len()],
-            1 => ((r >> 8) % 2001) as f64 / 1000.0 - 1.0,
-            2 => (t as f64) * 0.5 - c as f64,
-            _ => ((r >> 8) % 17) as f64 - 8.0,
-        }
-    }
-}
-
-pub fn feat_for(args: &Args, rng: &mut Rng) -> Feat {
-    let budget = if args.thorough() { 10 + rng.below(30) } else { 6 + rng.below(14) };
-    let mut f = Feat::all(budget);
-    f.max_fns = if args.thorough() { 2 + rng.below(8) } else { 1 + rng.below(5) };
-    f.max_state_depth = 1 + rng.below(4);
-    // individually switch some features off so that failures localise
-    if rng.chance(1, 4) {
-        f.lambdas = false;
-        f.escaping_closures = false;
-    }
-    if rng.chance(1, 4) {
-        f.records = false;
-    }
-    if rng.chance(1, 5) {
-        f.tuples = false;
-        f.self_tuple = false;
-    }
-    if rng.chance(1, 3) {
-        f.defaults = false;
-    }
-    f.defaults_dotdot = !args.q("default-args-dotdot") && rng.chance(1, 3);
-    f.branch_state = !args.q("stateful-call-in-branch") && rng.chance(1, 4);
-    f.raw_logic = false;
-    if args.q("modulo") {
-        f.modulo = false;
-    }
-    f.avoid = args.quarantine.iter().cloned().collect();
-    f
-}
 
 pub struct Checked {
     pub violations: Vec<(String, String)>,
@@ -129,7 +58,7 @@ pub fn check(c: &Case) -> Checked {
     let varies = want.iter().any(|x| !bits_eq(*x, first));
     let mut both_ran = true;
     for b in [Backend::Vm, Backend::Wasm] {
-        match run_program(b, &c.src, false, c.n, &inp, false, None) {
+        match run_program(b, &c.src, c.scheduler, c.n, &inp, false, c.path.as_ref().map(std::path::PathBuf::from)) {
             Ok(r) => {
                 res.ran.push(b.name());
                 res.samples_compared += r.out.len().min(want.len());
@@ -177,34 +106,6 @@ pub fn check(c: &Case) -> Checked {
     res
 }
 
-/// Minimise a failing case for one signature.
-pub fn minimise(c: &Case, sig: &str, max_evals: usize) -> Case {
-    let mut best = c.clone();
-    for n in [2usize, 4, 8, 16] {
-        if n < best.n {
-            let mut t = best.clone();
-            t.n = n;
-            if check(&t).violations.iter().any(|v| v.0 == sig) {
-                best = t;
-                break;
-            }
-        }
-    }
-    let Some(prog0) = best.prog.clone() else { return best };
-    let base = best.clone();
-    let mut pred = |p: &Program| {
-        if !crate::gens::tycheck::well_typed(p) {
-            return false;
-        }
-        let t = Case { src: p.print(), prog: Some(p.clone()), ..base.clone() };
-        check(&t).violations.iter().any(|v| v.0 == sig)
-    };
-    let small = crate::gens::shrink::shrink(&prog0, &mut pred, max_evals);
-    best.src = small.print();
-    best.prog = Some(small);
-    best
-}
-
 fn exec(c: &Case, idx: usize, out: &mut Out) -> bool {
     if let Some(p) = &c.prog
         && !crate::gens::tycheck::well_typed(p)
@@ -227,35 +128,8 @@ fn exec(c: &Case, idx: usize, out: &mut Out) -> bool {
         out.count(&format!("runs:{b}"), 1);
     }
     out.count("samples_compared", r.samples_compared as u64);
-    for (sig, detail) in &r.violations {
-        let key = format!("violations:{sig}");
-        let seen = out.counters.get(&key).copied().unwrap_or(0);
-        out.count(&key, 1);
-        if seen == 0 {
-            // first hit of this signature in this worker: report the minimised program
-            let small = minimise(c, sig, 400);
-            let d2 = check(&small).violations.into_iter().find(|v| &v.0 == sig).map(|v| v.1).unwrap_or(detail.clone());
-            out.violation(idx, sig, &format!("{d2}\n(minimised from a {}-byte program)", c.src.len()), &serde_json::to_value(&small).unwrap());
-        } else if seen < 4 {
-            out.violation(idx, sig, detail, &serde_json::to_value(c).unwrap());
-        }
-    }
+    report(out, idx, c, &r.violations, &|t| check(t).violations);
     r.nontrivial
-}
-
-/// strip identifiers / numbers from a diagnostic so signatures are stable
-pub fn norm(s: &str) -> String {
-    let mut o = String::new();
-    let mut last = ' ';
-    for ch in s.chars().take(100) {
-        let c = if ch.is_ascii_digit() { 'N' } else { ch };
-        if c == 'N' && last == 'N' {
-            continue;
-        }
-        o.push(c);
-        last = c;
-    }
-    o
 }
 
 pub fn meta(args: &Args) -> Value {
@@ -274,17 +148,9 @@ pub fn meta(args: &Args) -> Value {
     })
 }
 
-pub fn gen_case(args: &Args, _idx: usize, rng: &mut Rng) -> Case {
-    let feat = feat_for(args, rng);
-    let prog = generate(rng, feat);
-    let src = prog.print();
-    let n = *rng.pick(&[8usize, 16, 24, 40, 64]);
-    Case { src, n, input_seed: rng.next(), finite_inputs: true, prog: Some(prog), expect: None }
-}
-
 pub fn run(args: &Args, out: &mut Out) {
     let total = args.cases(400, 30000);
-    drive(args, out, total, |idx, rng| Some(gen_case(args, idx, rng)), exec);
+    drive(args, out, total, |_idx, rng| Some(gen_case(args, rng, true)), exec);
 }
 
 pub fn replay(_args: &Args, out: &mut Out, case: &Value) {
